@@ -74,6 +74,7 @@ class World:
     name = "unitsworld"
     prop_id = "C05"
     level = "fault_enumeration"
+    quick_enum_bases = 64        # quick tier: all single-fault placements of the first 64 sampled programs (thorough: of all)
     quick_runs = 4000
     thorough_budget_s = 900
     run_timeout = 120.0
